@@ -81,9 +81,9 @@ def emit_param_str(
                     _fill(
                         (_param["typ"] if _param.get("typ") else None)
                         if name == "return_type"
-                        else "{name} :{typ}".format(
+                        else "{name}{typ}".format(
                             name=name,
-                            typ=" {}".format(_param["typ"])
+                            typ=" : {}".format(_param["typ"])
                             if _param.get("typ")
                             else "",
                         )
